@@ -421,7 +421,8 @@ def rand_pcase(rng, focus=(), npairs=None):
             a = (a[0], s, None if a[2] is None else "I" * len(s))
         pairs.append(((name, a[1], a[2]), (cname, c[1], c[2])))
     pairactions = f("pairactions", 0.0)
-    if (p.pair_adapters and rng.random() < 0.5) or ("crossranks" in focus and rng.random() < 0.3) or pairactions:
+    stageorder = f("stageorder", 0.0)
+    if (p.pair_adapters and rng.random() < 0.5) or ("crossranks" in focus and rng.random() < 0.3) or pairactions or stageorder:
         # several ranks of plain 3' adapters of different lengths, all planted in both mates (in random order): the ranks
         # compete, and the best rank for R1 alone need not be the best rank for R2 alone
         k = rng.choice([2, 2, 3])
@@ -448,10 +449,38 @@ def rand_pcase(rng, focus=(), npairs=None):
                 rng.shuffle(order)
                 order = order[: rng.choice([1, 2, k])]
                 ins = U.rand_seq(rng, rng.choice([0, 4, 10]), "ACGT")
+                if rng.random() < 0.3:
+                    ins = ins.lower()   # soft-masked insert: --action=lowercase must upper-case what it keeps
                 return ins + "".join(ads[j] if rng.random() < 0.8 else U.mutate(rng, ads[j], 1, "ACGT") for j in order)
             t1, t2 = stack(a1), stack(a2)
             new.append(((n1.split()[0], t1, None if q1 is None else "I" * len(t1)), (n2.split()[0], t2, None if q2 is None else "I" * len(t2))))
         pairs = new
+    if stageorder:
+        # a step before the adapters that touches one mate only, the adapters as a step on the pair, and a step after the adapters
+        # that touches the other mate only: every step stays at its documented place
+        if base.fasta or rng.random() < 0.6:
+            early = ("cut", (rng.choice([1, 2, 3]),))
+        else:
+            early = ("qual", rng.choice(["10", "5,15", "25"]))
+        base.cuts, p.cuts2, base.qcut, p.qcut2, base.length, p.length2 = (), (), None, None, None, None
+        late = rng.choice([3, 5, 8, 12])
+        if rng.random() < 0.7:
+            # nothing after the shortening step looks at lengths: the run can be compared with the one without -l/-L
+            base.max_n, base.length_tag, base.trim_n, base.casava = None, None, False, False
+            p.min_len = p.max_len = None
+            base.too_short_output = base.too_long_output = False
+        if rng.random() < 0.5:
+            if early[0] == "cut":
+                base.cuts = early[1]
+            else:
+                base.qcut, p.qcut2 = early[1], "0"
+            p.length2 = late
+        else:
+            if early[0] == "cut":
+                p.cuts2 = early[1]
+            else:
+                base.qcut, p.qcut2 = "0", early[1]
+            base.length = late
     return p, pairs
 
 
